@@ -173,6 +173,11 @@ var stablePkgs = map[string]bool{
 // mechanically (every store to the field targets an object allocated in the same function).
 var declaredStable = map[string]bool{}
 
+// partialStable: heap -> sub-reference functions at which the heap is never modified
+// on pre-existing objects (`immutable Owner.embedded.leaf`: the leaf field of the
+// struct embedded in Owner); a havoc keeps the heap's values at those references.
+var partialStable = map[string][]string{}
+
 func heapStable(name string) bool {
 	if declaredStable[name] {
 		return true
